@@ -121,13 +121,20 @@ def _same_records(a, b, *, free_canonical_uri=False):
 
 def _via_files(obj, loader, what):
     """Load the same JSON data from a str path and a Path; return both converters."""
+    # The SAME file name is rewritten for every case of a loader kind (and deliberately not deleted in between): a loader
+    # must return what the file holds NOW, so any caching keyed on the location shows up as a stale converter.
     _n[0] += 1
-    path = Path(_TMP.name) / f"in{_n[0]}.json"
+    path = Path(_TMP.name) / f"in-{what}.json"
     path.write_text(json.dumps(obj))
-    try:
-        return loader(str(path)), loader(path)
-    finally:
-        path.unlink(missing_ok=True)
+    first = loader(str(path)), loader(path)
+    if _n[0] % 3 == 0:  # and sometimes a fresh, never-seen name
+        fresh = Path(_TMP.name) / f"in-{what}-{_n[0]}.json"
+        fresh.write_text(json.dumps(obj))
+        try:
+            return loader(str(fresh)), loader(fresh)
+        finally:
+            fresh.unlink(missing_ok=True)
+    return first
 
 
 def _behaviour(conv: Converter, expected, what):
